@@ -23,7 +23,12 @@ EXPLANATION = (
     "of depth 5 and 10 the interpreted steps and handler calls follow the number of nodes, not of paths (R2).  "
     "Handlers do not re-enter the traversal of their own walker on a sub-term (R3).  On the real, interpreted "
     "formula manager the cost of one construction op(x, x) - type check included - is the same over a term of "
-    "nesting depth 6 and depth 30 (R4: construction is linear, the memoising checker is really used).")
+    "nesting depth 6 and depth 30 (R4: construction is linear, the memoising checker is really used).  "
+    "Fourteen services (simplify, substitute, analyses, both printers, script export, get_logic, nnf / cnf / aig) are "
+    "interpreted on one n-ary node of 16, 32, 128 and 256 operands (five node families) and on a fixed formula in "
+    "environments holding 0, 40 and 80 unrelated symbols; cost = interpreted steps + sizes handed to linear-time "
+    "primitives (list membership, copies, sorting): the cost per further operand does not grow with the width and the "
+    "cost does not grow with the environment (R5).")
 NOT_DECIDED = ["constants of the linear bound", "the tree printers (not claimed by the property)"]
 
 # (class or module, function) -> reason.  Cycles entirely inside this set are accepted.
@@ -246,6 +251,9 @@ def run(ctx):
                 else:
                     rs.ok({"handler": "%s.%s" % (h.cls.split(".")[-1], h.name), "reenters": False})
         ctx.floor(rs, 150)
+
+    from . import c20_width
+    c20_width.run(ctx)
 
     if ctx.want("R4"):
         rs = ctx.rule("R4", "real manager: the cost of one construction does not grow with the size of its operands")
